@@ -661,3 +661,157 @@ Proof. exact nested_refuted. Qed.
 Print Assumptions T02c_nested_comps_refuted.
 
 End Comp.
+
+
+(* ------------------------------------------------------------------------------------------- *)
+(* statement-merging / collection-literal tranche (design/C02_coll.md) *)
+Require Pyrefact.RulesCollModel Pyrefact.RulesCollProofs.
+
+Module Coll.
+Import ZArith.
+Import ListNotations.
+Import Pyrefact.RulesExprModel Pyrefact.RulesCollModel Pyrefact.RulesCollProofs.
+
+(* One fold of `x = <display>` and the statements filling x (the five merge rules, as repaired): every
+   run of the original block that terminates normally is a run of the merged block with the same
+   outcome, the same variables (type, element / key order, surviving key object), the same trace.
+   Opaque callees may read any variable but x. *)
+Theorem T02l_merge_window_sound : forall W r s0 x k ps mods more rest q res,
+  blind W x ->
+  init_of r s0 = Some (x, k, ps) -> mods_of r x mods = Some more ->
+  exec_block W (s0 :: mods ++ rest) q = Some res ->
+  exec_block W (SAssign x (display k (ps ++ more)) :: rest) q = Some res.
+Proof. exact merge_window_sound. Qed.
+Print Assumptions T02l_merge_window_sound.
+
+(* the whole pass of a merge rule over a statement list (all transactions) *)
+Theorem T02l_merge_block_sound : forall W r b q res,
+  (forall x, blind W x) ->
+  exec_block W b q = Some res -> exec_block W (merge_block r b) q = Some res.
+Proof. exact merge_block_sound. Qed.
+Print Assumptions T02l_merge_block_sound.
+
+Example T02l_merge_block_example :
+  merge_block MCollAdd
+    [SAssign 1 (ESeq KList [EConst (AInt 1)]); SMeth 1 MAppend [ECall 0 []];
+     SMeth 1 MExtend [ESeq KTuple [EName 2; EStar (EName 3)]]; SMeth 1 MAppend [EName 1]; SExpr (EName 1)]
+  = [SAssign 1 (ESeq KList [EConst (AInt 1); ECall 0 []; EName 2; EStar (EName 3)]);
+     SMeth 1 MAppend [EName 1]; SExpr (EName 1)].
+Proof. reflexivity. Qed.
+
+(* without `blind`: a callee that reads the collection being built (finding F02coll-1) *)
+Theorem T02l_merge_refuted_global_reader :
+  exists W r b q res, exec_block W b q = Some res /\ merge_block r b <> b /\
+                      exec_block W (merge_block r b) q <> Some res.
+Proof. exact merge_refuted_global_reader. Qed.
+Print Assumptions T02l_merge_refuted_global_reader.
+
+(* the rules before the repairs F02coll-4 / F02coll-5 (closed worlds) *)
+Theorem T02l_merge_old_refuted_self_read :
+  exists r b q res, exec_block (fun _ => test_world) b q = Some res /\
+                    exec_block (fun _ => test_world) (scan_old r None b) q <> Some res.
+Proof. exact merge_old_refuted_self_read. Qed.
+Print Assumptions T02l_merge_old_refuted_self_read.
+
+Theorem T02l_merge_old_refuted_order :
+  exists r b q res, exec_block (fun _ => test_world) b q = Some res /\
+                    exec_block (fun _ => test_world) (scan_old r None b) q <> Some res.
+Proof. exact merge_old_refuted_order. Qed.
+Print Assumptions T02l_merge_old_refuted_order.
+
+(* the side conditions of the repaired rules: frame and purity *)
+Theorem T02l_frame : forall x w e, mentions x e = false ->
+  forall en1 en2, (forall y, y <> x -> en1 y = en2 y) -> forall tr, eval w e en1 tr = eval w e en2 tr.
+Proof. exact frame_x. Qed.
+Print Assumptions T02l_frame.
+
+Theorem T02l_pure_eval : forall w e, pure e = true ->
+  forall en tr, eval w e en tr = match eval w e en [] with Some (v, _) => Some (v, tr) | None => None end.
+Proof. exact pure_eval. Qed.
+Print Assumptions T02l_pure_eval.
+
+(* fixes.breakout_starred_args (repaired) *)
+Theorem T02l_starargs_sound : forall w e e' en tr r,
+  rw_starargs e = Some e' -> eval w e en tr = Some r -> eval w e' en tr = Some r.
+Proof. exact starargs_sound. Qed.
+Print Assumptions T02l_starargs_sound.
+
+Theorem T02l_starargs_old_refuted :
+  exists e e' en, eval test_world e en [] <> None /\ eval test_world e' en [] <> eval test_world e en [] /\
+    e = ECall 4 [EStar (ESeq KSet [EStar (EName 2)])] /\ e' = ECall 4 [EStar (EName 2)].
+Proof. exact starargs_old_refuted. Qed.
+Print Assumptions T02l_starargs_old_refuted.
+
+(* fixes.simplify_assign_immediate_return, on nested blocks: same returned value and trace *)
+Theorem T02l_immret_sound : forall W body q,
+  ret_rel (exec_block W body q) (exec_block W (rw_immret body) q).
+Proof. exact rw_immret_sound. Qed.
+Print Assumptions T02l_immret_sound.
+
+(* fixes.replace_with_filter: same outcome, trace and variables except the loop variable (F02-47) *)
+Theorem T02l_filter_sound : forall W s s' q, (forall x, blind W x) -> rw_filter s = Some s' ->
+  exists x, res_rel x (exec_stmt W s q) (exec_stmt W s' q).
+Proof. exact filter_sound. Qed.
+Print Assumptions T02l_filter_sound.
+
+Theorem T02l_filter_refuted_loop_variable :
+  exists s s' q, rw_filter s = Some s' /\ exec_stmt (fun _ => test_world) s q <> exec_stmt (fun _ => test_world) s' q /\
+                 exec_stmt (fun _ => test_world) s q <> None.
+Proof. exact filter_refuted_loop_variable. Qed.
+Print Assumptions T02l_filter_refuted_loop_variable.
+
+(* fixes.simplify_redundant_lambda (repaired), on one positional application *)
+Theorem T02l_lambda_sound : forall w l r en args tr res,
+  NoDup (l_params l ++ match l_vararg l with Some a => [a] | None => [] end) ->
+  rw_lambda l = Some r -> apply_lam w l en args tr = Some res -> apply_repl w r args tr = Some res.
+Proof. exact lambda_sound. Qed.
+Print Assumptions T02l_lambda_sound.
+
+(* fixes.fix_raise_missing_from: value and context kept, cause changed (finding F02coll-3) *)
+Theorem T02l_raise_from_partial : forall caught x,
+  x_value (raise_from caught x) = x_value (raise_plain caught x) /\
+  x_context (raise_from caught x) = x_context (raise_plain caught x).
+Proof. exact raise_from_partial. Qed.
+Print Assumptions T02l_raise_from_partial.
+
+Theorem T02l_raise_from_refuted : forall caught x, raise_from caught x <> raise_plain caught x.
+Proof. exact raise_from_refuted. Qed.
+Print Assumptions T02l_raise_from_refuted.
+
+(* fixes.implicit_defaultdict: one loop step leaves the same items; the class is observable (F02-58) *)
+Theorem T02l_defaultdict_step_items : forall lk d k v, plain_step lk d k v = dd_step lk d k v.
+Proof. exact defaultdict_step_items. Qed.
+Print Assumptions T02l_defaultdict_step_items.
+
+Theorem T02l_defaultdict_refuted_missing_key : forall lk d k, dict_get d k = None ->
+  fst (mapping_read (PlainDict d) k) = None /\ fst (mapping_read (DefaultDict lk d) k) = Some (dd_empty lk).
+Proof. exact defaultdict_refuted_missing_key. Qed.
+Print Assumptions T02l_defaultdict_refuted_missing_key.
+
+(* the merge rules in every statement list of a nested program *)
+Theorem T02l_merge_deep_sound : forall W r, (forall x, blind W x) -> forall b q res,
+  exec_block W b q = Some res -> exec_block W (merge_deep r b) q = Some res.
+Proof. exact merge_deep_sound. Qed.
+Print Assumptions T02l_merge_deep_sound.
+
+(* fixes.implicit_dict_keys_values_items, `for k, _ in d.items()` -> `for k in d.keys()` (and values), as
+   repaired (F02coll-11): same outcome, trace and variables except `_`, for loop bodies that never read `_` *)
+Theorem T02l_items_sound : forall W s s' q, blind W underscore -> rw_items false s = Some s' ->
+  match s with SFor _ _ body => reads_us_b body = false | _ => True end ->
+  res_rel underscore (exec_stmt W s q) (exec_stmt W s' q).
+Proof. exact items_sound. Qed.
+Print Assumptions T02l_items_sound.
+
+Theorem T02l_items_refuted_underscore :
+  exists s s' q, rw_items false s = Some s' /\ exec_stmt (fun _ => test_world) s q <> exec_stmt (fun _ => test_world) s' q /\
+                 exec_stmt (fun _ => test_world) s q <> None.
+Proof. exact items_refuted_underscore. Qed.
+Print Assumptions T02l_items_refuted_underscore.
+
+(* a block that never reads `_` does not depend on the binding of `_` (statement-level frame) *)
+Theorem T02l_block_frame_underscore : forall W b, blind W underscore -> reads_us_b b = false ->
+  forall q1 q2, xequiv underscore q1 q2 -> res_rel underscore (exec_block W b q1) (exec_block W b q2).
+Proof. intros W b H. exact (fB_all W H b). Qed.
+Print Assumptions T02l_block_frame_underscore.
+
+End Coll.
